@@ -129,6 +129,11 @@ def build_pair(case):
     if mech in ("zip-flag", "7z-aes"):
         members = [{"name": f"m{i}.txt", "data": f"qa{seed % 1000:03d}{i:02d}z member {i}\n".encode()} for i in range(rng.randint(1, 4))]
         plain = archives.build("zip-deflated" if mech == "zip-flag" else "7z-lzma-solid", members)
+        if mech == "zip-flag" and variant in ("hidden-member", "unsupported-member", "nested-archive-member"):
+            extra = {"hidden-member": ".credentials.txt", "unsupported-member": "keys.bin", "nested-archive-member": "inner.zip"}[variant]
+            enc_members = members + [{"name": extra, "data": b"secret bytes", "encrypted": True}]
+            rng.shuffle(enc_members)
+            return "zip", ".zip", plain, archives.build("zip-deflated", enc_members), True
         if mech == "zip-flag":
             idx = {"first": 0, "last": len(members) - 1, "only": 0}[variant]
             if variant == "only":
@@ -249,7 +254,7 @@ def gen_cases(run):
             yield mk(mech="ole-flag", fmt="xls", variant=variant, seed=base + r)
         for variant in ("encrypted-summary", "encrypted-summary-information", "encryption-info"):
             yield mk(mech="ole-flag", fmt="ppt", variant=variant, seed=base + r)
-        for variant in ("first", "last", "only"):
+        for variant in ("first", "last", "only", "hidden-member", "unsupported-member", "nested-archive-member"):
             yield mk(mech="zip-flag", fmt="zip", variant=variant, seed=base + r)
         for variant in ("main-folder", "one-of-several-folders", "encrypted-header"):
             yield mk(mech="7z-aes", fmt="7z", variant=variant, seed=base + r)
